@@ -1321,7 +1321,7 @@ def c20(a):
         tag = work("C20", f"threads-{k}")
         with open(tag + ".in", "w") as f:
             f.write(json.dumps(cfgrec) + "\n")
-        pr = vlib.run_recorder(["threads", "--threads", "16", "--rounds", "12" if q else "40", "--summary", tag + ".sum"],
+        pr = vlib.run_recorder(["threads", "--threads", "16", "--rounds", "12" if q else "40", "--summary", tag + ".sum", "--second-parity", str(k % 2)],
                                stdin_path=tag + ".in", stdout_path=tag + ".obs.ndjson", timeout=600)
         return k, pr.returncode, tag + ".obs.ndjson", tag + ".sum"
     results = parallel([(lambda k=k: one(k)) for k in range(runs)], 4)
